@@ -37,6 +37,7 @@ type nativeOutcome struct {
 	timedOut  bool
 	done      bool
 	raw       string
+	probes    map[string]int64
 }
 
 func harnessEntries(files []string) ([]string, error) {
@@ -48,7 +49,7 @@ func harnessEntries(files []string) ([]string, error) {
 			return nil, err
 		}
 		for _, d := range af.Decls {
-			if fd, ok := d.(*ast.FuncDecl); ok && fd.Recv == nil && strings.HasPrefix(fd.Name.Name, "zzH_") && fd.Type.Params.NumFields() == 0 {
+			if fd, ok := d.(*ast.FuncDecl); ok && fd.Recv == nil && (strings.HasPrefix(fd.Name.Name, "zzH_") || strings.HasPrefix(fd.Name.Name, "zzP_")) && fd.Type.Params.NumFields() == 0 {
 				out = append(out, fd.Name.Name)
 			}
 		}
@@ -134,6 +135,16 @@ func (r *nativeReplayer) run(entry string, bounds map[string]int64, inputs []Non
 			o.reached = append(o.reached, strings.TrimPrefix(ln, "VERIF-REACH: "))
 		case strings.HasPrefix(ln, "VERIF-VIOLATION: ") && o.violation == "":
 			o.violation = strings.TrimPrefix(ln, "VERIF-VIOLATION: ")
+		case strings.HasPrefix(ln, "VERIF-PROBE: "):
+			kv := strings.SplitN(strings.TrimPrefix(ln, "VERIF-PROBE: "), "=", 2)
+			if len(kv) == 2 {
+				var v int64
+				fmt.Sscan(kv[1], &v)
+				if o.probes == nil {
+					o.probes = map[string]int64{}
+				}
+				o.probes[kv[0]] = v
+			}
 		case ln == "VERIF-BLOCKED-EXPECTED":
 			o.blockedExpected = true
 		case ln == "VERIF-ASSUME-FAILED":
